@@ -300,6 +300,9 @@ func TestDispatch(t *testing.T) {
 		if c.Kind == "op" && c.Name == "" && c.Code == 2147483647 {
 			codes = append(codes, 0x80000000, 0xFFFFFFFF) // beyond TLC's integer range
 		}
+		if c.Kind == "obj" && c.Expect == "error" && c.Code == 2147483647 {
+			codes = append(codes, 0x80000000, 0x80000001, 0x80000041, 0xFFFFFFFF) // the extension range: unknown there, too
+		}
 		for _, code := range codes {
 			switch c.Kind {
 			case "op":
